@@ -4,7 +4,8 @@ From Coq Require Import List Arith Bool Permutation.
 Import ListNotations.
 Require Import Fggs.Model.Semiring Fggs.Model.Replace Fggs.Proofs.Replace_spec Fggs.Proofs.Replace_model_spec
   Fggs.Proofs.Replace_confl Fggs.Proofs.Replace_derive_main Fggs.Proofs.Replace_corollaries Fggs.Proofs.Replace_examples Fggs.Proofs.Replace_iso Fggs.Proofs.Replace_dasst
-  Fggs.Proofs.Replace_complete Fggs.Proofs.Replace_nlabs Fggs.Proofs.Replace_dasst_fun Fggs.Proofs.Replace_alias.
+  Fggs.Proofs.Replace_complete Fggs.Proofs.Replace_nlabs Fggs.Proofs.Replace_dasst_fun Fggs.Proofs.Replace_alias
+  Fggs.Model.ReplaceCheck Fggs.Proofs.Replace_build.
 
 (** replace_edge on a well-formed host / edge / replacement whose externals are pairwise distinct:
     returns; the result satisfies the replacement specification (exactly the edge removed, rest and
@@ -313,3 +314,60 @@ Theorem C15_replace_alias_old_refuted :
                                      length (g_edges g'') = 1 /\ replace_spec al_host2 al_e2 al_host2 g'' nm' em').
 Proof. exact replace_alias_old_refuted. Qed.
 Print Assumptions C15_replace_alias_old_refuted.
+
+(** Graphs built through the construction / conversion / copy paths of the library ([Graph.copy],
+    [FactorGraph.from_graph], [FactorGraph.copy], rule / grammar copies, JSON, [ext] assigned in any order):
+    the observation oracle is exact.  Verdict 0 iff the observed [.type] IS the list of the labels of the
+    external nodes (computed by the model from [.ext], never taken from the implementation), [.arity] their
+    number, the conversion kept the content and every [HRGRule(lhs, g)] attempt ended as the types say. *)
+Theorem C15_build_check_exact : forall wsrc wout mode ty ar wrules,
+  build_check (wsrc, wout, mode, (ty, ar), wrules) = 0 <->
+  (ty = gtype (d_graph wout) /\ ar = length (g_ext (d_graph wout)))
+  /\ content_eqb mode (d_graph wsrc) (d_graph wout) = true
+  /\ rules_obs_ok (map (fun p => (d_lab (fst p), snd p)) wrules) (d_graph wout) = true.
+Proof. exact build_check_exact. Qed.
+Print Assumptions C15_build_check_exact.
+
+(** verdict 1 is a genuine failing input: [.type] / [.arity] is not what the external nodes say *)
+Theorem C15_build_check_type_rejects : forall wsrc wout mode ty ar wrules,
+  build_check (wsrc, wout, mode, (ty, ar), wrules) = 1 <->
+  ~ (ty = gtype (d_graph wout) /\ ar = length (g_ext (d_graph wout))).
+Proof. exact build_check_type_rejects. Qed.
+Print Assumptions C15_build_check_type_rejects.
+
+Theorem C15_rules_obs_ok_exact : forall rules g,
+  rules_obs_ok rules g = true <->
+  forall lhs st, In (lhs, st) rules ->
+    (st = 0 /\ l_term lhs = false /\ l_type lhs = gtype g) \/ (st = 1 /\ rule_accepts lhs g = false).
+Proof. exact rules_obs_ok_exact. Qed.
+Print Assumptions C15_rules_obs_ok_exact.
+
+(** replace_edge reads the replacement only through nodes(), edges() and ext: replacements with the same
+    content give the same result (same accept / reject decision), however they were built *)
+Theorem C15_replace_only_reads_content : forall g nx e r r',
+  g_nodes r = g_nodes r' -> g_edges r = g_edges r' -> g_ext r = g_ext r' ->
+  replace_edge_model g nx e r = replace_edge_model g nx e r'.
+Proof. exact replace_only_reads_content. Qed.
+Print Assumptions C15_replace_only_reads_content.
+
+Theorem C15_replace_same_content : forall g nx e r r',
+  content_eqb 0 r r' = true -> replace_edge_model g nx e r = replace_edge_model g nx e r'.
+Proof. exact replace_same_content. Qed.
+Print Assumptions C15_replace_same_content.
+
+(** wrong type -- the type being the labels of the replacement's external nodes -- is rejected with the
+    graph untouched, for every replacement (no well-formedness hypothesis) *)
+Theorem C15_replace_wrong_type_rejected : forall g nx e r,
+  l_type (e_label e) <> map n_label (g_ext r) -> replace_edge_model g nx e r = (g, nx, Err ValueErr).
+Proof. exact replace_wrong_type_rejected. Qed.
+Print Assumptions C15_replace_wrong_type_rejected.
+
+Theorem C15_build_check_example :
+  let n0 := ((0, 0), 0) in let n1 := ((0, 1), 1) in let n2 := ((1, 0), 1) in
+  let f := (0, [0; 1], true) in
+  let g := ([n0; n1; n2], [((0, 2), f, [n0; n1]); ((1, 1), f, [n0; n2])], [n0; n1], [f], [0; 1]) in
+  build_check (g, g, 0, ([0; 1], 2), [((1, [0; 1], false), 0); ((2, [], false), 1); (f, 1)]) = 0
+  /\ build_check (g, g, 0, ([], 2), []) = 1
+  /\ build_check (g, g, 0, ([0; 1], 2), [((1, [0; 1], false), 1)]) = 3.
+Proof. exact build_check_example. Qed.
+Print Assumptions C15_build_check_example.
